@@ -24,7 +24,9 @@ EXIT_OK, EXIT_VIOLATION, EXIT_HARNESS = 0, 1, 3
 
 def env_for(tier, param):
     e = dict(os.environ)
-    e["PYTHONPATH"] = os.pathsep.join([ROOT, os.path.join(ROOT, "stubs")])
+    # VK_REPO (seed evaluation only): analyse another checkout of the repository instead of /repo
+    alt = [os.environ["VK_REPO"]] if os.environ.get("VK_REPO") else []
+    e["PYTHONPATH"] = os.pathsep.join(alt + [ROOT, os.path.join(ROOT, "stubs")])
     e["PYTHONHASHSEED"] = "0"
     e["VK_TIER"] = tier
     e["VK_PARAM"] = str(param)
@@ -36,7 +38,7 @@ def env_for(tier, param):
 # ----------------------------------------------------------------------------- discovery
 def load_obligations(prop, tier):
     """Return [(module_name, file, func_name, meta, params)] for every harness of `prop`."""
-    sys.path[:0] = [ROOT, os.path.join(ROOT, "stubs")]
+    sys.path[:0] = ([os.environ["VK_REPO"]] if os.environ.get("VK_REPO") else []) + [ROOT, os.path.join(ROOT, "stubs")]
     os.environ["VK_TIER"] = tier
     out = []
     hdir = os.path.join(ROOT, "harness")
@@ -155,11 +157,22 @@ def run_crosshair(path, func, tier, param, timeout, path_timeout=None):
 CALL_RE = re.compile(r"when calling (?P<f>\w+)\((?P<args>.*)\)\s*(\(which (returns|raises)|$)", re.S)
 
 
+PATCH_MARK = ") with crosshair.patch_to_return("
+
+
 def parse_call(msg, func):
+    """-> source text of the argument list; a nondeterministic-function schedule CrossHair reports
+    ("with crosshair.patch_to_return({...})") is carried along after a NUL separator"""
     i = msg.find("when calling %s(" % func)
     if i < 0:
         return None
     rest = msg[i + len("when calling %s(" % func):]
+    k = rest.find(PATCH_MARK)
+    if k >= 0:
+        tail = rest[k + len(PATCH_MARK):]
+        e = tail.find("})")
+        patch = tail[: e + 1] if e >= 0 else None
+        return rest[:k] + ("\x1ePATCH\x1e" + patch if patch else "")
     j = rest.rfind(") (which returns")
     if j < 0:
         j = rest.rfind(")")
@@ -207,7 +220,7 @@ def trigger_matches(rec, modname, func, param, tier, args_src):
         return False
     if rec.get("param") is not None and rec.get("param") != param:
         return False
-    r = replay_call(modname, func, param, tier, args_src + "\x00TRIGGER\x00" + rec["trigger"])
+    r = replay_call(modname, func, param, tier, args_src + "\x1eTRIGGER\x1e" + rec["trigger"])
     return r.get("status") == "trigger" and r.get("value") is True
 
 
@@ -373,7 +386,9 @@ def run_property(prop, tier, only=None, budget=None):
         assumptions=sorted({a for r in results for a in ([r["bounds"]] if r["bounds"] else [])}),
         wall_s=round(wall, 2), violations=nviol,
     )
-    with open(os.path.join(ROOT, "evidence", "%s.json" % prop), "w") as fh:
+    evdir = os.environ.get("VK_EVIDENCE_DIR") or os.path.join(ROOT, "evidence")
+    os.makedirs(evdir, exist_ok=True)
+    with open(os.path.join(evdir, "%s.json" % prop), "w") as fh:
         json.dump(ev, fh, indent=1, default=str)
     print("SUMMARY property=%s tier=%s obligations=%d confirmed=%d inconclusive=%d violations=%d known=%d wall=%.0fs" % (
         prop, tier, len(results), len(confirmed), len(inconcl), nviol,
